@@ -632,7 +632,7 @@ Print Assumptions C09_multi_solve_check_13_impossible_carriers.
 Require Import Fggs.Model.Axis Fggs.Model.AxisCheck Fggs.Model.PSolve Fggs.Model.PSolveCheck.
 Require Import Fggs.Proofs.Axis_antiunify Fggs.Proofs.PSolve_anti Fggs.Proofs.PSolve_step Fggs.Proofs.PSolve_sized
                Fggs.Proofs.PSolve_loop Fggs.Proofs.PSolve_term Fggs.Proofs.PSolve_fuel Fggs.Proofs.PSolve_oracle
-               Fggs.Proofs.PSolve_dense Fggs.Proofs.PSolve_main Fggs.Proofs.PSolve_check Fggs.Proofs.PSolve_nouf Fggs.Proofs.Instances_psolve.
+               Fggs.Proofs.PSolve_dense Fggs.Proofs.PSolve_main Fggs.Proofs.PSolve_check Fggs.Proofs.PSolve_nouf Fggs.Proofs.PSolve_tensor Fggs.Proofs.Instances_psolve.
 Notation below := Fggs.Proofs.Axis_complete_gen.below (only parsing).
 
 (** (B1) closure: when the loop exits normally and nothing was warned about, the support of the
@@ -816,6 +816,41 @@ Theorem C09_psolve_early_exit_least :
   forall v w, v < n -> w < m -> get2 o (solve_model_mat o n m A B) v w = get2 o B v w.
 Proof. exact (@psolve_early_least). Qed.
 Print Assumptions C09_psolve_early_exit_least.
+
+(** the link to the tensors (vector right-hand side): for patterned tensors [a] (vaxes [a0; a1])
+    and [b] (vaxes [b0]) whose default is the semiring zero, [dense_mat n a] / [dense_col n b]
+    tabulate [PTensor.denote] (what [__getitem__] returns, C06); the model's result is the least
+    solution of the system they denote *)
+Theorem C09_psolve_tensor_least :
+  forall (S : Type) (o : sr_ops S), sr_ring o -> sr_ordered o -> sr_star o ->
+  forall (a b : PTensor.ptensor S) (a0 a1 b0 : axis) (next : positive) (sz : positive -> nat) (n : nat),
+    PTensor.vaxes a = [a0; a1] -> PTensor.vaxes b = [b0] ->
+    PTensor.default a = Semiring.zero o -> PTensor.default b = Semiring.zero o ->
+    below next a0 -> below next a1 -> below next b0 ->
+    (forall k, In k (fv b0) -> ~ In k (fv a0 ++ fv a1)) ->
+    szc sz a0 -> szc sz a1 -> szc sz b0 -> numel b0 = n ->
+  forall fuel g ents i',
+    psolve_loop fuel a0 a1 b0 (mkLI 0 next false []) = LDone g ents i' -> li_warn i' = false ->
+    least_spec o n (dense_mat n a) (col o n (dense_col n b) 0)
+      (fun v => if v <? n then get2 o (psolve_dense o n 1 g [] (dense_mat n a) (dense_col n b)) v 0
+                else Semiring.zero o).
+Proof. exact (@psolve_tensor_least). Qed.
+Print Assumptions C09_psolve_tensor_least.
+
+Theorem C09_psolve_tensor_early_least :
+  forall (S : Type) (o : sr_ops S), sr_ring o -> sr_ordered o -> sr_star o ->
+  forall (a b : PTensor.ptensor S) (a0 a1 b0 : axis) (next : positive) (sz : positive -> nat) (n : nat),
+    PTensor.vaxes a = [a0; a1] -> PTensor.vaxes b = [b0] ->
+    PTensor.default a = Semiring.zero o -> PTensor.default b = Semiring.zero o ->
+    below next a0 -> below next a1 -> below next b0 ->
+    (forall k, In k (fv b0) -> ~ In k (fv a0 ++ fv a1)) ->
+    szc sz a0 -> szc sz a1 -> szc sz b0 -> numel b0 = n ->
+  forall fuel e' i',
+    psolve_loop fuel a0 a1 b0 (mkLI 0 next false []) = LEarly e' i' -> li_warn i' = false ->
+  forall v, v < n ->
+    get1 o (solve_model o n (dense_mat n a) (col o n (dense_col n b) 0)) v = PTensor.denote S b [v].
+Proof. exact (@psolve_tensor_early_least). Qed.
+Print Assumptions C09_psolve_tensor_early_least.
 
 (** carrier instances: no law premise *)
 Theorem C09_psolve_equals_dense_solve_bool :
